@@ -144,6 +144,7 @@ type runner struct {
 	armedSalt  [8]byte
 	armedFrame int64
 	sawBlocked bool
+	needFull   bool // a nil-writer (full snapshot) checkpoint failed and has not succeeded since
 }
 
 func (r *runner) count(k string, n int64) { r.res.Counts[k] += n }
@@ -240,6 +241,39 @@ func (r *runner) applySegment(seg []byte) error {
 	return nil
 }
 
+// recaptured counts frames of seg whose (page, content) occurs in the WAL
+// before frame k but not at or after it.
+func recaptured(seg, walb []byte, k int) int {
+	if len(seg) < 32 || len(walb) < 32 {
+		return 0
+	}
+	ps := int(binary.BigEndian.Uint32(walb[8:]))
+	if ps == 0 {
+		return 0
+	}
+	fsz := 24 + ps
+	key := func(b []byte, i int) string {
+		o := 32 + i*fsz
+		return string(b[o:o+4]) + string(b[o+24:o+fsz])
+	}
+	before, after := map[string]bool{}, map[string]bool{}
+	for i := 0; 32+(i+1)*fsz <= len(walb); i++ {
+		if i < k {
+			before[key(walb, i)] = true
+		} else {
+			after[key(walb, i)] = true
+		}
+	}
+	n := 0
+	for i := 0; 32+(i+1)*fsz <= len(seg); i++ {
+		kk := key(seg, i)
+		if before[kk] && !after[kk] {
+			n++
+		}
+	}
+	return n
+}
+
 func segFrames(seg []byte) int {
 	if len(seg) < 32 {
 		return 0
@@ -293,6 +327,10 @@ func (r *runner) compare(stepNo int, what string) {
 func (r *runner) attempt(stepNo int, st step, timeout time.Duration) string {
 	pre := readWALHead(r.path + "-wal")
 	armedFrameAtEntry := r.armedFrame
+	var preWAL []byte
+	if r.armed && pre.ok && pre.salt == r.armedSalt {
+		preWAL, _ = os.ReadFile(r.path + "-wal")
+	}
 	hitsC, hitsS := vexport.HookHits("ckpt.after_compact"), vexport.HookHits("ckpt.after_sqlite")
 	if st.HC != "" {
 		vexport.HookOn("ckpt.after_compact", func() { r.readerAct(st.HC, st.HR) })
@@ -317,6 +355,11 @@ func (r *runner) attempt(stepNo int, st step, timeout time.Duration) string {
 	r.count("hook_after_compact_hits", vexport.HookHits("ckpt.after_compact")-hitsC)
 	r.count("hook_after_sqlite_hits", vexport.HookHits("ckpt.after_sqlite")-hitsS)
 	r.count("attempts", 1)
+	if os.Getenv("C06_DEBUG") != "" {
+		post := readWALHead(r.path + "-wal")
+		fmt.Fprintf(os.Stderr, "step %d %s: pre salt=%x frames=%d size=%d armed=%v | meta=%v err=%v seg=%d bytes (%d frames) | post salt=%x frames=%d size=%d\n",
+			stepNo, st.Op, pre.salt, pre.frame, pre.size, r.armed, meta, err, buf.Len(), segFrames(buf.Bytes()), post.salt, post.frame, post.size)
+	}
 
 	// reset detection (only meaningful while the manager must be watching)
 	expectReset := r.armed && pre.ok && pre.salt != r.armedSalt
@@ -346,8 +389,10 @@ func (r *runner) attempt(stepNo int, st step, timeout time.Duration) string {
 		if err != nil {
 			r.count("full_failed", 1)
 			r.sawBlocked = true
+			r.needFull = true
 			return "F:failed"
 		}
+		r.needFull = false
 		if pre.size == 0 {
 			r.armed = false
 			return "F:empty"
@@ -415,9 +460,12 @@ func (r *runner) attempt(stepNo int, st step, timeout time.Duration) string {
 		}
 		if appended {
 			r.count("segments_after_append", 1)
-			// informational: frames a resumed segment could have skipped
-			if int64(nf) > pre.frame-armedFrameAtEntry {
-				r.count("segments_larger_than_appended_range", 1)
+			// Informational only (re-capturing frames is wasteful, not wrong):
+			// does the segment repeat a frame that lies before the resume
+			// index and that the appended range does not contain?
+			if n := recaptured(seg, preWAL, int(armedFrameAtEntry)); n > 0 {
+				r.count("segments_recapturing_frames_before_resume", 1)
+				r.count("frames_recaptured_before_resume", int64(n))
 			}
 		}
 		if err := r.applySegment(seg); err != nil {
@@ -498,6 +546,11 @@ func runSchedule(s *schedule) (res *result) {
 			r.readerAct("stop", st.R)
 			out = "RE"
 		case "C", "F":
+			if r.needFull {
+				// a store keeps a full snapshot due until one succeeds: it never
+				// follows a failed nil-writer checkpoint with an incremental one
+				st.Op = "F"
+			}
 			out = r.attempt(i, st, 25*time.Millisecond)
 		default:
 			res.HarnessErr = "unknown op " + st.Op
@@ -512,9 +565,13 @@ func runSchedule(s *schedule) (res *result) {
 	for i := range r.readers {
 		r.readerAct("stop", i)
 	}
-	out := r.attempt(len(s.Steps), step{Op: "C"}, 5*time.Second)
-	res.Outcomes = append(res.Outcomes, "final:"+strings.TrimPrefix(out, "C:"))
-	if out != "C:truncated" && out != "C:empty" && len(res.Viol) == 0 && res.HarnessErr == "" {
+	fin := step{Op: "C"}
+	if r.needFull {
+		fin.Op = "F"
+	}
+	out := r.attempt(len(s.Steps), fin, 5*time.Second)
+	res.Outcomes = append(res.Outcomes, "final:"+strings.TrimPrefix(strings.TrimPrefix(out, "C:"), "F:"))
+	if out != "C:truncated" && out != "C:empty" && out != "F:ok" && out != "F:empty" && len(res.Viol) == 0 && res.HarnessErr == "" {
 		res.HarnessErr = fmt.Sprintf("closing attempt without any reader ended as %s", out)
 	}
 	return
